@@ -593,3 +593,58 @@ VARIANTS["C17"] = [
     R("h-reset-removed-init-loop-remains", MPG, "        self._H_tau: dict = {}\n        for i, j in self._MPM._G.edges():", "        for i, j in self._MPM._G.edges():"),
     R("order-number-of-nodes", MPG, "/ self._MPM._G.order())", "/ self._MPM._G.number_of_nodes())"),
 ]
+
+VARIANTS["C02"] += [
+    M("seed-name-row-cache", GF, "        gen = self.infinite_sequence()\n\n        # for each topology list ...", "        name_rows: dict = {}\n        gen = self.infinite_sequence()\n\n        # for each topology list ..."
+      ) if False else ME("seed-name-row-cache", [(GF, "        gen = self.infinite_sequence()\n", "        gen = self.infinite_sequence()\n        name_rows: dict = {}\n"),
+        (GF, "                EdgeList.topologies.extend([self._edge_names[k]] * len(es))\n", "                n_edges = len(es)\n                if n_edges not in name_rows:\n                    name_rows[n_edges] = [self._edge_names[k]] * n_edges\n                EdgeList.topologies.extend(name_rows[n_edges])\n")], "C02.5"),
+    RE("memo-keyed-by-topology-too", [(GF, "        gen = self.infinite_sequence()\n", "        gen = self.infinite_sequence()\n        name_rows: dict = {}\n"),
+        (GF, "                EdgeList.topologies.extend([self._edge_names[k]] * len(es))\n", "                n_edges = len(es)\n                if (k, n_edges) not in name_rows:\n                    name_rows[(k, n_edges)] = [self._edge_names[k]] * n_edges\n                EdgeList.topologies.extend(name_rows[(k, n_edges)])\n")]),
+]
+
+_MP_OLD = "    g: nx.Graph = G.copy()\n    cliques = list(nx.enumerate_all_cliques(g))\n"
+_MP_NEW = "    cliques = list(nx.enumerate_all_cliques(G))\n    claimed: set = set()\n"
+_MP_OLD2 = "        skip: bool = False\n        for e in itertools.combinations(c, 2):\n            if not g.has_edge(e[0], e[1]):\n                skip = True\n                break\n        if not skip:\n            cover.append(c)\n            g.remove_edges_from(list(itertools.combinations(c, 2)))\n"
+VARIANTS["C10"] += [
+    ME("seed-claimed-set-mixed-keys", [(MP, _MP_OLD, _MP_NEW), (MP, _MP_OLD2,
+        "        edges: list = list(itertools.combinations(c, 2))\n        if any(e in claimed for e in edges):\n            continue\n\n        cover.append(c)\n        claimed.update(tuple(sorted(e)) for e in edges)\n")], "C10.4"),
+    RE("claimed-set-consistent-keys", [(MP, _MP_OLD, _MP_NEW), (MP, _MP_OLD2,
+        "        edges: list = list(itertools.combinations(c, 2))\n        if any(tuple(sorted(e)) in claimed for e in edges):\n            continue\n\n        cover.append(c)\n        claimed.update(tuple(sorted(e)) for e in edges)\n")]),
+]
+VARIANTS["C03"] += [
+    ME("seed-shared-stub-lists", [(GF, "        stubs = [\n            list(chain.from_iterable(starmap(repeat, r)))\n            for r in map(enumerate, zip(*jds))\n        ]",
+        "        expanded: dict = {}\n        for column in zip(*jds):\n            if column not in expanded:\n                expanded[column] = list(chain.from_iterable(starmap(repeat, enumerate(column))))\n        stubs = [expanded[column] for column in zip(*jds)]")], "C03.2"),
+]
+VARIANTS["C04"] += [
+    M("seed-only-zero-degree-nodes", EN, "        model.G.add_nodes_from(range(len(edgelist.joint_degrees)))\n", "        model.G.add_nodes_from(n for n, jd in enumerate(edgelist.joint_degrees) if not any(jd))\n", "C04.1"),
+    R("nodes-by-generator", EN, "        model.G.add_nodes_from(range(len(edgelist.joint_degrees)))\n", "        model.G.add_nodes_from(n for n, jd in enumerate(edgelist.joint_degrees))\n"),
+]
+VARIANTS["C08"] += [
+    M("seed-sizes-unsorted-set", LC, "sorted(list(set([len(c) for c in self._cover])))", "list({len(c) for c in self._cover})", "C08.1"),
+]
+VARIANTS["C09"] += [
+    M("seed-early-break-scan", EE, "                            else:\n                                n += 1\n", "                            elif C[n][0] > C[c][i]:\n                                break\n                            else:\n                                n += 1\n", "C09.6"),
+]
+VARIANTS["C19"] += [
+    M("seed-polylog-loop-guard", DS_, "        zk = z\n        while 1:", "        zk = z\n        while zk >= tol:", "C19.3"),
+]
+VARIANTS["C14"] += [
+    M("seed-scale-factor-inlined", JFE, "            scale_factor = base_value / p_obs[topology][common_key]\n            for key in p_obs[topology]:\n                p_obs[topology][key] *= scale_factor",
+      "            observation = p_obs[topology]\n            for key in observation:\n                observation[key] *= base_value / observation[common_key]", "C14.5"),
+    R("observation-alias", JFE, "            scale_factor = base_value / p_obs[topology][common_key]\n            for key in p_obs[topology]:\n                p_obs[topology][key] *= scale_factor",
+      "            observation = p_obs[topology]\n            scale_factor = base_value / observation[common_key]\n            for key in observation:\n                observation[key] *= scale_factor"),
+]
+VARIANTS["C13"] += [
+    M("seed-tuple-assign-self-pair", JE, "                if key1 == key2:\n                    ejk[key1] = ejk.get(key1, 0) + (1.0 / (self._num_edges[name]))\n                else:\n                    ejk[key1] = ejk.get(key1, 0) + (0.5 / (self._num_edges[name]))\n                    ejk[key2] = ejk.get(key2, 0) + (0.5 / (self._num_edges[name]))",
+      "                weight = 0.5 / self._num_edges[name]\n                ejk[key1], ejk[key2] = (\n                    ejk.get(key1, 0) + weight,\n                    ejk.get(key2, 0) + weight,\n                )", "C13.2"),
+]
+VARIANTS["C20"] += [
+    M("seed-branchfree-remove", DS, "        last_item = self._edges.pop()\n        if position != len(self._edges):\n            self._edges[position] = last_item\n            self._edge_hashmap[last_item] = position",
+      "        last_item = self._edges[-1]\n        self._edges[position] = last_item\n        self._edge_hashmap[last_item] = position\n        self._edges.pop()", "C20.4"),
+    R("read-last-then-pop-guarded", DS, "        last_item = self._edges.pop()\n        if position != len(self._edges):\n            self._edges[position] = last_item\n            self._edge_hashmap[last_item] = position",
+      "        last_item = self._edges[-1]\n        if position != len(self._edges) - 1:\n            self._edges[position] = last_item\n            self._edge_hashmap[last_item] = position\n        self._edges.pop()"),
+]
+VARIANTS["C05"] += [
+    M("seed-batched-patch", JDP, "                for j in range(self._motif_sizes[i] - ntop % self._motif_sizes[i]):\n                    j = random.randrange(0, len(jds))\n                    t = list(jds[j])\n                    t[i] += 1\n                    jds[j] = tuple(t)",
+      "                n_stubs = self._motif_sizes[i] - ntop % self._motif_sizes[i]\n                chosen = random.choices(range(len(jds)), k=n_stubs)\n                jds_plus = {j: jds[j][:i] + (jds[j][i] + 1,) + jds[j][i + 1 :] for j in chosen}\n                for j, t in jds_plus.items():\n                    jds[j] = t", "C05.3"),
+]
